@@ -847,6 +847,7 @@ static void gen_big(unsigned shard, unsigned nshards, uint64_t count) {
 /* all 2^16 two-byte prefixes x trailing lengths */
 static void fill(unsigned char *p, size_t n, unsigned kind) {
 	size_t i;
+	if (n > 1500 && (kind & 3) < 2) kind = 2 + (kind & 1); /* tens of thousands of children only cost time (list growth is quadratic) */
 	switch (kind & 3) {
 	case 0: memset(p, 0, n); break;
 	case 1: for (i = 0; i < n; i++) p[i] = (unsigned char)(i % 3 == 0 ? 0x41 : i % 3 == 1 ? 1 : 0x99); break;
